@@ -24,7 +24,8 @@ from symx.run import model_env
 BOUNDS = {
     "quick": "base registry: 2 short names + 1 dotted name x 3 plugin classes (2 sharing one class name in different "
     "modules is not needed: identity is by full name), arbitrary Inv pre-state, every operation with every argument; "
-    "instance registry: 2 classes x 2 formats; public registries: megacomplex / data-io / project-io once each",
+    "instance registry: 2 classes x 2 formats; public registries: megacomplex / data-io / project-io once each; looked-up keys: 8 forms (exact short / full name and near "
+    "misses: other case, trailing blank, prefix, bare class name), operation is_registered_plugin",
     "thorough": "3 short names x 3 classes; instance registry 2 classes x 3 formats",
 }
 OUTSIDE = "histories are covered by induction over Inv, not enumerated; entry-point loading (load_plugins) is I/O"
